@@ -177,10 +177,18 @@ def gen_layered(rng, n, back=0.0, slow=0.0, owners=(0.35, 0.3, 0.35), rmax=20, n
     # non-absorbing finals: turn some inner state into an additional final
     if nonabs_final and rng.random() < nonabs_final:
         inner = [p for p in range(1, n) if pos_kind[p] == "inner"]
-        if inner:
-            finals.append(rng.choice(inner))
+        for p in rng.sample(inner, min(len(inner), rng.choice([1, 1, 2]))):
+            finals.append(p)
     gd = {"rewards": rewards, "players": players, "transition_list": tl, "final_states": sorted(finals)}
-    return renumber_random(rng, gd)
+    gd = renumber_random(rng, gd)
+    if nonabs_final:
+        # the final set is a list the user writes: any order, repetitions allowed
+        fs = list(gd["final_states"])
+        rng.shuffle(fs)
+        if rng.random() < 0.3:
+            fs.insert(rng.randrange(len(fs) + 1), rng.choice(fs))
+        gd["final_states"] = fs
+    return gd
 
 
 def permute(gd, perm):
@@ -615,10 +623,21 @@ def gen_tiny_branch(rng, nmax=9):
         if rng.random() < 0.5:
             tr.reverse()
         tl.append(tr)
-        if rng.random() < 0.4:          # one more hop in front of the tiny state
+        r = rng.random()
+        if r < 0.3:          # one more hop in front of the tiny state
             t2 = len(players)
             players.append(rng.choice([PR, P1])); rewards.append(F(rng.randint(0, 9)))
             tl.append([(F(1), t)] if players[-1] == PR else [("a", t)])
+            t = t2
+        elif r < 0.6:
+            # a Player-1 state whose BEST move is the tiny one, next to dead moves (they tie with it after rounding to
+            # 6 digits, so they are reported as reachability-optimal too, and must then be removed as dead branches)
+            d = len(players)
+            players.append(PR); rewards.append(F(rng.randint(1, 9))); tl.append([(F(1, 2), z), (F(1, 2), d)])
+            t2 = len(players)
+            opts = [("a", t), ("b", z), ("c", d)][:rng.randint(2, 3)]
+            rng.shuffle(opts)
+            players.append(P1); rewards.append(F(rng.randint(0, 9))); tl.append(opts)
             t = t2
         if players[s] == PR:
             share = rng.choice([F(1, 2), F(1, 4), F(1, 10)])
@@ -647,6 +666,89 @@ def gen_init_final(rng, absorbing=True):
         rewards[0] = F(0)
     if rng.random() < 0.3:
         finals = [0]
+    return {"rewards": rewards, "players": players, "transition_list": tl, "final_states": finals}
+
+
+def gen_near_tie(rng, cyclic=False, nmax=7):
+    """A chooser between a sub-game and a copy of it that is worse by a small but *separated* margin (a leak of
+    1e-5 .. 1e-3 into a sink in front of it), optionally a third, clearly different option.  Ordering these
+    correctly needs the full precision the solver claims (stop rule, rounding digits)."""
+    for _ in range(200):
+        A = gen_cyc(rng, nmax=nmax, owners=(0.2, 0.2, 0.6)) if cyclic else gen_acy(rng, nmax=nmax, owners=(0.25, 0.25, 0.5))
+        if A is None:
+            continue
+        gA = to_oracle(A)
+        if 0 in gA.finals or gA.absorbing(0) or 0 not in oracle.positive_set(gA):
+            continue
+        break
+    else:
+        return None
+    nA = len(A["players"])
+    players = [None] + list(A["players"])
+    rewards = [F(0)] + list(A["rewards"])
+    tl = [None] + [[(a, t + 1) for a, t in tr] for tr in A["transition_list"]]
+    finals = [f + 1 for f in A["final_states"]]
+    sink = len(players)
+    players.append(PR); rewards.append(F(0)); tl.append([(F(1), sink)])
+    opts = [("a", 1)]
+    for lab in ("b", "c")[:rng.randint(1, 2)]:
+        eps = rng.choice([F(1, 10 ** 5), F(3, 10 ** 5), F(1, 10 ** 4), F(1, 2000), F(1, 1000)])
+        s = len(players)
+        players.append(PR); rewards.append(F(0))
+        tr = [(1 - eps, 1), (eps, sink)]
+        if rng.random() < 0.5:
+            tr.reverse()
+        tl.append(tr)
+        opts.append((lab, s))
+    if rng.random() < 0.7:
+        # an independent competitor whose exact value lies just below A's: a few convergence bands away, so that it is
+        # separated for a solver that really converges to its threshold, but not for one that stops early
+        try:
+            vA = oracle.reach_values(gA)["v"][0]
+            TA = oracle.expected_steps_max(gA)[0] if oracle.is_stopping(gA)[0] else F(50)
+        except oracle.OracleInconclusive:
+            vA, TA = None, None
+        if vA is not None and finals:
+            gap = rng.choice([3, 5, 8, 15]) * F(1, 10 ** 6) * max(TA, 1) + F(4, 10 ** 6)
+            q = vA - gap
+            if 0 < q < 1:
+                s = len(players)
+                players.append(PR); rewards.append(F(0))
+                tl.append([(q, finals[0]), (1 - q, sink)])
+                opts.append(("d", s))
+    if cyclic and finals and rng.random() < 0.5:
+        # ballast: many states that settle in the first sweep (they move straight to a final state); a stop rule that
+        # averages or sums over states instead of taking the largest change is diluted by them
+        for _ in range(rng.choice([40, 120, 300])):
+            players.append(PR); rewards.append(F(0)); tl.append([(F(1), finals[0])])
+    rng.shuffle(opts)
+    players[0], tl[0] = rng.choice([P1, P2]), opts
+    gd = {"rewards": rewards, "players": players, "transition_list": tl, "final_states": sorted(finals)}
+    return renumber_random(rng, gd)
+
+
+def gen_no_reach(rng):
+    """No non-final state can reach a final state: the finals are isolated (or every state is final)."""
+    gd = gen_acy(rng, nmax=8) if rng.random() < 0.5 else (gen_cyc(rng, nmax=8) or gen_acy(rng, nmax=8))
+    g = to_oracle(gd)
+    n = g.n
+    players, tl, rewards = list(gd["players"]), [list(t) for t in gd["transition_list"]], list(gd["rewards"])
+    finals = [f for f in gd["final_states"] if g.absorbing(f)]
+    if not finals:
+        return None
+    if rng.random() < 0.2:
+        # every state is final and absorbing
+        k = rng.randint(1, 4)
+        return {"rewards": [F(0)] * k, "players": [PR] * k, "transition_list": [[(F(1), i)] for i in range(k)], "final_states": list(range(k))}
+    sinks = [s for s in range(n) if g.absorbing(s) and s not in gd["final_states"]]
+    if not sinks:
+        players.append(PR); rewards.append(F(0)); tl.append([(F(1), len(players) - 1)]); sinks = [len(players) - 1]
+    z = sinks[0]
+    fs = set(gd["final_states"])
+    for s in range(n):
+        if s in fs:
+            continue
+        tl[s] = [(a, z if t in fs else t) for a, t in tl[s]]
     return {"rewards": rewards, "players": players, "transition_list": tl, "final_states": finals}
 
 
@@ -679,6 +781,12 @@ def gen_class(rng, cls, **kw):
         return gen_lex(rng, **kw)
     if cls == "G-TINY":
         return gen_tiny(rng)
+    if cls == "G-NEAR":
+        return gen_near_tie(rng, cyclic=False)
+    if cls == "G-NEARC":
+        return gen_near_tie(rng, cyclic=True)
+    if cls == "G-NOREACH":
+        return gen_no_reach(rng)
     if cls == "G-TINYB":
         return gen_tiny_branch(rng, **kw)
     if cls == "G-INIT0F":
